@@ -2,15 +2,16 @@
 # confirm_seed.sh <worktree> <k> <seed-id> : confirms a seeded change (demo passes on pristine, fails with the patch,
 # the library test-suite still passes with the patch) and stores it under /verif/seeded/<seed-id>/
 set -u
+FEATS=${FEATS:-}
 WT=$1; K=$2; SID=$3
 OUT=$WT/_out
 cd $WT || exit 2
 git checkout -q -- src; rm -rf tests; mkdir -p tests; cp $OUT/demo$K.rs tests/demo$K.rs
 export CARGO_NET_OFFLINE=true
-r0=$(cargo test --offline --test demo$K 2>&1 | grep "^test result" | head -1)
+r0=$(cargo test --offline $FEATS --test demo$K 2>&1 | grep "^test result" | head -1)
 git apply $OUT/patch$K.diff || { echo "patch does not apply"; exit 2; }
 b=$(cargo build --offline 2>&1 | tail -1)
-r1=$(cargo test --offline --test demo$K 2>&1 | grep "^test result" | head -1)
+r1=$(cargo test --offline $FEATS --test demo$K 2>&1 | grep "^test result" | head -1)
 r2=$(cargo test --offline --lib 2>&1 | grep "^test result" | head -1)
 git checkout -q -- src; rm -rf tests
 echo "pristine demo: $r0"; echo "mutated demo: $r1"; echo "mutated suite: $r2"
